@@ -179,7 +179,7 @@ Proof. unfold cs. simpl. destruct (f q); lia. Qed.
 
 Lemma cs_app f s1 s2 : cs f (s1 ++ s2) = cs f s1 + cs f s2.
 Proof.
-  induction s1 as [|q s1 IH]; simpl; [reflexivity|]. rewrite !cs_cons, IH. lia.
+  induction s1 as [|q s1 IH]; cbn [app]; [reflexivity|]. rewrite !cs_cons, IH. lia.
 Qed.
 
 Lemma cs_firstn_skipn f k s : cs f (firstn k s) + cs f (skipn k s) = cs f s.
@@ -197,8 +197,8 @@ Lemma count_upd f b n v : (n < length b)%nat ->
   count_pieces f (upd b n v) = count_pieces f b - cs f (nth n b []) + cs f v.
 Proof.
   revert n; induction b as [|s b IH]; intros [|n] H; simpl in H; try lia.
-  - simpl. rewrite !count_cons. lia.
-  - simpl. rewrite !count_cons, IH by lia. lia.
+  - cbn [upd nth]. rewrite !count_cons. lia.
+  - cbn [upd nth]. rewrite !count_cons, IH by lia. lia.
 Qed.
 
 Lemma count_updz f b i v : 0 <= i < zlen b ->
@@ -206,7 +206,7 @@ Lemma count_updz f b i v : 0 <= i < zlen b ->
 Proof. unfold updz, getz, zlen. intros H. apply count_upd. lia. Qed.
 
 Lemma count_repeat_nil f n : count_pieces f (repeat [] n) = 0.
-Proof. induction n as [|n IH]; simpl; [reflexivity|]. rewrite count_cons, IH. reflexivity. Qed.
+Proof. induction n as [|n IH]; cbn [repeat]; [reflexivity|]. rewrite count_cons, IH. reflexivity. Qed.
 
 (* two disjoint classes of pieces together do not exceed the total *)
 Lemma cs_disjoint f g s : (forall q, f q = true -> g q = true -> False) ->
